@@ -320,6 +320,8 @@ def families(tier):
     runs = [("a_p_b", 4, 6), ("a_p_b_rev", 0, 6), ("a_p_q_b", 4, 6), ("a_p_dfix_b", 3, 5),
             ("ab_p_c", 3, 4), ("a_p_bc", 3, 4), ("two_pulls_parallel", 3, 4), ("a0_a_p_b_rev", 3, 4),
             ("ab_dfix_first_p_c", 3, 4)]
+    D = dict(D, **topos.PULL_DIAMONDS)
+    runs += [("a_p_two_outputs_c", 3, 4), ("a_p_diamond_c", 3, 4)]
     for name, uq, ut in runs:
         u = uq if q else ut
         if u:
